@@ -717,6 +717,19 @@ class Context(MetadataContextMixin, object):
                 print("EE:", ee)
                 # traceback.print_exc()
                 state.is_error = True
+                # Record the failure like any other one, so that the error state names the failing action
+                self.exception(
+                    message=str(ee.original_message),
+                    position=action.position,
+                    query=self.raw_query,
+                    traceback=traceback.format_exc(),
+                )
+                if ee.position is None:
+                    ee = EvaluationException(
+                        ee.original_message,
+                        position=action.position,
+                        query=self.raw_query,
+                    )
                 state.exception = ee
             except Exception as e:
                 traceback.print_exc()
